@@ -27,6 +27,13 @@ var faultKinds = []string{
 	"ignore_flush",           // Flush answers OK and removes nothing
 	"misreport_elect",        // the election id in responses is off by one
 	"accept_repeated_params", // a second SessionParameters message is acknowledged instead of ending the RPC
+	// per-recipient / per-kind variants: the same requirements broken in a second way
+	"echo_own_elect",                  // the election response carries the announcer's own id, not the highest id seen
+	"misreport_elect_nonprimary_only", // the election id is off by one only in responses to a session that is not the primary
+	"omit_fib_for_deletes_only",       // FIB_PROGRAMMED is never sent for DELETE operations
+	"stale_get_one_table_only",        // Get omits one entry of the IPv4 table (every other table is complete)
+	"ignore_flush_named_only",         // Flush of a named instance answers OK and removes nothing (ALL is honoured)
+	"old_primary_kept_on_equal_id",    // a session whose announced id equals the current id is still served as primary after another session announced the same id
 }
 
 func faultNumber(kind string) int {
@@ -43,6 +50,16 @@ type faultServer struct {
 	spb.UnimplementedGRIBIServer
 	s    *server.Server
 	kind string
+
+	winMu  sync.Mutex
+	winner *faultStream // the stream whose announcement was last answered with its own id (the primary)
+}
+
+func (f *faultServer) setWinner(st *faultStream) { f.winMu.Lock(); f.winner = st; f.winMu.Unlock() }
+func (f *faultServer) isWinner(st *faultStream) bool {
+	f.winMu.Lock()
+	defer f.winMu.Unlock()
+	return f.winner == st
 }
 
 func (f *faultServer) Modify(ms spb.GRIBI_ModifyServer) error {
@@ -53,11 +70,14 @@ func (f *faultServer) Get(req *spb.GetRequest, gs spb.GRIBI_GetServer) error {
 	if f.kind == "stale_get" {
 		return f.s.Get(req, &staleGet{GRIBI_GetServer: gs})
 	}
+	if f.kind == "stale_get_one_table_only" {
+		return f.s.Get(req, &staleGet{GRIBI_GetServer: gs, ipv4Only: true})
+	}
 	return f.s.Get(req, gs)
 }
 
 func (f *faultServer) Flush(ctx context.Context, req *spb.FlushRequest) (*spb.FlushResponse, error) {
-	if f.kind == "ignore_flush" {
+	if f.kind == "ignore_flush" || (f.kind == "ignore_flush_named_only" && req.GetName() != "") {
 		return &spb.FlushResponse{Timestamp: time.Now().UnixNano(), Result: spb.FlushResponse_OK}, nil
 	}
 	return f.s.Flush(ctx, req)
@@ -66,14 +86,21 @@ func (f *faultServer) Flush(ctx context.Context, req *spb.FlushRequest) (*spb.Fl
 // staleGet drops one entry of the Get result.
 type staleGet struct {
 	spb.GRIBI_GetServer
-	dropped bool
+	ipv4Only bool
+	dropped  bool
 }
 
 func (g *staleGet) Send(r *spb.GetResponse) error {
-	if !g.dropped && len(r.GetEntry()) > 0 {
-		g.dropped = true
-		r = proto.Clone(r).(*spb.GetResponse)
-		r.Entry = r.Entry[1:]
+	if !g.dropped {
+		for i, e := range r.GetEntry() {
+			if g.ipv4Only && e.GetIpv4() == nil {
+				continue
+			}
+			g.dropped = true
+			r = proto.Clone(r).(*spb.GetResponse)
+			r.Entry = append(r.Entry[:i:i], r.Entry[i+1:]...)
+			break
+		}
 	}
 	return g.GRIBI_GetServer.Send(r)
 }
@@ -91,7 +118,34 @@ type faultStream struct {
 
 	swallow atomic.Int32 // election responses caused by injected announcements, still to be dropped
 	failMu  sync.Mutex
-	failIDs map[uint64]bool
+	failIDs map[uint64]bool // fail_idem_delete: DELETEs of missing entries; omit_fib_for_deletes_only: every DELETE
+
+	annMu     sync.Mutex
+	announced []*spb.Uint128 // ids announced by the client and not yet answered, oldest first
+	lastAnn   *spb.Uint128   // the id the client announced last
+}
+
+func (st *faultStream) noteAnnounced(id *spb.Uint128) {
+	st.annMu.Lock()
+	st.announced = append(st.announced, id)
+	st.lastAnn = id
+	st.annMu.Unlock()
+}
+
+// answered pops the announcement that the election response r answers.
+func (st *faultStream) answered() *spb.Uint128 {
+	st.annMu.Lock()
+	defer st.annMu.Unlock()
+	if len(st.announced) == 0 {
+		return nil
+	}
+	id := st.announced[0]
+	st.announced = st.announced[1:]
+	return id
+}
+
+func sameID(a, b *spb.Uint128) bool {
+	return a != nil && b != nil && a.GetHigh() == b.GetHigh() && a.GetLow() == b.GetLow()
 }
 
 func (st *faultStream) rawSend(r *spb.ModifyResponse) error {
@@ -114,7 +168,29 @@ func (st *faultStream) Recv() (*spb.ModifyRequest, error) {
 		only := func(params, elec, ops bool) bool {
 			return (m.GetParams() != nil) == params && (m.GetElectionId() != nil) == elec && (len(m.GetOperation()) > 0) == ops
 		}
+		if only(false, true, false) {
+			st.noteAnnounced(m.GetElectionId())
+		}
 		switch st.f.kind {
+		case "old_primary_kept_on_equal_id":
+			if only(false, false, true) {
+				st.annMu.Lock()
+				last := st.lastAnn
+				st.annMu.Unlock()
+				if cur, _ := st.f.s.VerifElection(); sameID(cur, last) {
+					st.queued = m
+					st.swallow.Add(1)
+					return &spb.ModifyRequest{ElectionId: proto.Clone(cur).(*spb.Uint128)}, nil
+				}
+			}
+		case "omit_fib_for_deletes_only":
+			st.failMu.Lock()
+			for _, op := range m.GetOperation() {
+				if op.GetOp() == spb.AFTOperation_DELETE {
+					st.failIDs[op.GetId()] = true
+				}
+			}
+			st.failMu.Unlock()
 		case "accept_repeated_params":
 			if only(true, false, false) {
 				if st.seenParams {
@@ -193,6 +269,25 @@ func (st *faultStream) markMissingDeletes(ops []*spb.AFTOperation) {
 }
 
 func (st *faultStream) Send(r *spb.ModifyResponse) error {
+	electionOnly := r.GetElectionId() != nil && len(r.GetResult()) == 0 && r.GetSessionParamsResult() == nil
+	if electionOnly && st.f.kind != "nonprimary" && st.f.kind != "old_primary_kept_on_equal_id" {
+		own := st.answered()
+		if sameID(own, r.GetElectionId()) {
+			st.f.setWinner(st)
+		}
+		switch st.f.kind {
+		case "echo_own_elect":
+			if own != nil {
+				r = proto.Clone(r).(*spb.ModifyResponse)
+				r.ElectionId = proto.Clone(own).(*spb.Uint128)
+			}
+		case "misreport_elect_nonprimary_only":
+			if !st.f.isWinner(st) {
+				r = proto.Clone(r).(*spb.ModifyResponse)
+				r.ElectionId.Low++
+			}
+		}
+	}
 	switch st.f.kind {
 	case "omit_fib":
 		if len(r.GetResult()) > 0 {
@@ -213,8 +308,25 @@ func (st *faultStream) Send(r *spb.ModifyResponse) error {
 			r = proto.Clone(r).(*spb.ModifyResponse)
 			r.ElectionId.Low++
 		}
-	case "nonprimary":
-		if r.GetElectionId() != nil && len(r.GetResult()) == 0 && r.GetSessionParamsResult() == nil {
+	case "omit_fib_for_deletes_only":
+		if len(r.GetResult()) > 0 {
+			st.failMu.Lock()
+			r = proto.Clone(r).(*spb.ModifyResponse)
+			kept := r.Result[:0]
+			for _, x := range r.Result {
+				if st.failIDs[x.GetId()] && x.GetStatus() == spb.AFTResult_FIB_PROGRAMMED {
+					continue
+				}
+				kept = append(kept, x)
+			}
+			r.Result = kept
+			st.failMu.Unlock()
+			if len(kept) == 0 {
+				return nil
+			}
+		}
+	case "nonprimary", "old_primary_kept_on_equal_id":
+		if electionOnly {
 			for {
 				n := st.swallow.Load()
 				if n <= 0 {
